@@ -57,3 +57,42 @@ Print Assumptions C06_conditions_sound.
 Print Assumptions C06_conditions_exact.
 Print Assumptions C06_sound_end_to_end_partial.
 Print Assumptions C06_mirrored_refuted.
+
+(* ------------------------------------------------------------------------------------------------------------
+   Extension (second round): exactness w.r.t. the LITERAL reading (Lemmas/ExactInstances.v).  `Lit lit f b` = some literal
+   accepting path through block b admits the value: comparisons of the governed field against constants read exactly
+   (`lit`), every other condition free; no domain, solver or fuel appears in it (Spec/Literal.v; the backward pass ignoring
+   edge constraints, known finding D12, is reflected there). *)
+From Coq Require Import List String NArith ZArith Bool Arith.
+From Tealer Require Import Tables Leaves LeafPrelude Syntax Parse Cfg StackAst Keys Analysis Domains Detect Literal GraphWf ExecLemmas LeafLemmas ExactLemmas ExactInstances.
+
+(* EXACT: a size / index is listed at a block iff some literal accepting path through the block admits it (either operand order, all six operators) -- for programs without the mirrored ordered comparisons of known finding D2 *)
+Theorem C06_exact_on_direct_checks_partial :
+  forall (f : func) (sz : bool) (fuel : nat) (lo : list (nat * list Z)) (x : Z),
+       graph_wf f = true ->
+       int_not_mirrored f sz ->
+       In x (SingleLemmas.int_U sz) ->
+       run_int f fuel sz = Done lo ->
+       forall b : nat, (exists v : list Z, lookup (list Z) lo b = Some v /\ In x v) <-> Lit (int_lit sz (fn_intcs f) x) f b.
+Proof. exact @C06_result_exact_partial. Qed.
+
+(* without the D2 hypothesis: exact w.r.t. the reading the tool implements *)
+Theorem C06_exact_tool_reading :
+  forall (f : func) (sz : bool) (fuel : nat) (lo : list (nat * list Z)) (x : Z),
+       graph_wf f = true ->
+       In x (SingleLemmas.int_U sz) ->
+       run_int f fuel sz = Done lo ->
+       forall b : nat, (exists v : list Z, lookup (list Z) lo b = Some v /\ In x v) <-> Lit (int_lit_tool sz (fn_intcs f) x) f b.
+Proof. exact @C06_result_exact_tool. Qed.
+
+(* a block on no accepting path lists nothing *)
+Theorem C06_no_accepting_path_lists_nothing_partial :
+  forall (f : func) (sz : bool) (fuel : nat) (lo : list (nat * list Z)) (b : nat) (v : list Z),
+       int_not_mirrored f sz ->
+       run_int f fuel sz = Done lo ->
+       lookup (list Z) lo b = Some v -> (forall x : Z, In x (SingleLemmas.int_U sz) -> ~ Lit (int_lit sz (fn_intcs f) x) f b) -> v = nil.
+Proof. exact @C06_no_literal_path_lists_nothing_partial. Qed.
+
+Print Assumptions C06_exact_on_direct_checks_partial.
+Print Assumptions C06_exact_tool_reading.
+Print Assumptions C06_no_accepting_path_lists_nothing_partial.
